@@ -15,7 +15,8 @@ package main
 //
 // At index i the plan applies:
 //   err:<E>   the call is NOT forwarded; it returns E (IO = syscall.EIO, NOENT = syscall.ENOENT,
-//             PNOTEXIST = &os.PathError{Err: os.ErrNotExist}) and zero values (count 0, nil file);
+//             PNOTEXIST = &os.PathError{Err: os.ErrNotExist}, PNOENT = &os.PathError{Err:
+//             syscall.ENOENT}, NOTEXIST = os.ErrNotExist) and zero values (count 0, nil file);
 //             Name(), which cannot fail, is forwarded;
 //   short:<k> Write / WriteString / WriteAt: only the first min(k,len) bytes are forwarded, the
 //             short count is returned as the inner call returned it (nil error);
@@ -39,7 +40,7 @@ import (
 
 type faultSpec struct {
 	Kind string // "err" | "short"
-	Err  string // IO | NOENT | PNOTEXIST
+	Err  string // IO | NOENT | PNOTEXIST | PNOENT | NOTEXIST
 	K    int
 }
 
@@ -61,6 +62,10 @@ func faultErr(name string) error {
 		return syscall.ENOENT
 	case "PNOTEXIST":
 		return &os.PathError{Op: "fault", Path: "injected", Err: os.ErrNotExist}
+	case "PNOENT":
+		return &os.PathError{Op: "fault", Path: "injected", Err: syscall.ENOENT}
+	case "NOTEXIST":
+		return os.ErrNotExist
 	}
 	panic("unknown fault error " + name)
 }
